@@ -19,7 +19,7 @@ func checkC14(p *Prog, r *Result, tier string) {
 	r.Rule("C14.R3", "who may touch the map: the inner cache map is accessed only by methods of its owner type", 1)
 	r.Rule("C14.R4", "the clone handles every aliasing kind: the kind switch of the deep clone has a recursing arm for each of Ptr, Slice, Map, Struct and Array", 5)
 	r.Rule("C14.R6", "the only object a write API retains is the schema's type witness, and it is used for its type only: it never reaches a hook other than UUID, the serialiser or the clone function", 1)
-	r.Rule("C14.R7", "an empty container is not a nil one: the deep clone never decides a branch on reflect.Value.Len() == 0 (its early exit is a nil test), so empty slices and maps are cloned as empty, not as nil", 1)
+	r.Rule("C14.R7", "an empty container is not a nil one and a zero value is not a nil one: the deep clone never decides a branch on reflect.Value.Len() == 0 and never returns on IsZero() alone (its early exit is a nil test of pointers, slices and maps), so empty containers are cloned as empty and zero values held in interfaces are kept", 1)
 	checkCloneEmptiness(p, r, "C14.R7")
 	r.Rule("C14.R8", "what the encoder serialises is what the clone deep-copies: the struct arm of the deep clone also goes through embedded (anonymous) struct fields whose type is not exported, whose exported fields are promoted and serialised (it reads reflect.StructField.Anonymous to find them)", 1)
 	checkCloneEmbedded(p, r, "C14.R8")
@@ -451,6 +451,32 @@ func checkCloneEmptiness(p *Prog, r *Result, rule string) {
 				}
 			}
 		}
+	}
+	// IsZero() alone must not lead straight to a return: zero scalars and zero structs held in an interface slot would
+	// be cloned as a nil interface; the early exit is for nil pointers, slices and maps (IsZero plus a kind test, or IsNil)
+	zeroOnly := false
+	for _, f := range calleesWithin(p, cv, 1) {
+		for _, b := range f.Blocks {
+			ifi, ok := b.Instrs[len(b.Instrs)-1].(*ssa.If)
+			if !ok {
+				continue
+			}
+			c, ok := ifi.Cond.(*ssa.Call)
+			if !ok || c.Call.StaticCallee() == nil || c.Call.StaticCallee().Name() != "IsZero" || c.Call.StaticCallee().Signature.Recv() == nil || !isNamedFrom(c.Call.StaticCallee().Signature.Recv().Type(), "reflect", "Value") {
+				continue
+			}
+			// the true successor returns without any further test
+			t := b.Succs[0]
+			for _, in := range t.Instrs {
+				if _, ok := in.(*ssa.Return); ok {
+					zeroOnly, at = true, ifi
+				}
+			}
+		}
+	}
+	if zeroOnly {
+		r.Report(rule, FuncName(cv), "nil, not emptiness, ends the clone early", Violated, "the deep clone returns as soon as the source value is the zero value of its type, whatever its kind: a zero scalar or struct held in an interface{} member (or element) is left out and the clone holds a nil interface, so a cached read returns null where the file holds \"\", 0 or false", p.Pos(at.Pos()), nil, true)
+		return
 	}
 	if bad {
 		r.Report(rule, FuncName(cv), "nil, not emptiness, ends the clone early", Violated, "the deep clone branches on the length of a container being 0: an empty non-nil slice or map is then not cloned and the copy holds nil, which the object writer encodes as null instead of [] / {} (the file is no longer the JSON encoding of the accepted object, and a reopened database hands back nil)", p.Pos(at.Pos()), nil, true)
